@@ -1718,7 +1718,9 @@ class Dict(Generic, ValueSpecBase):
   def noneable(self) -> 'Dict':
     """Override noneable in Dict to always set default value None."""
     self._is_noneable = True
-    self.set_default(None, False)
+    if not self.frozen:
+      # NOTE: the default of a frozen spec is its frozen value.
+      self.set_default(None, False)
     return self
 
   def set_default(
